@@ -16,6 +16,7 @@ import PtProofs.PadLemmas
 import PtProofs.EinsumLowerLemmas
 import PtProofs.AdvIndexLemmas
 import PtProofs.BinopLemmas
+import PtProofs.ReduceLemmas
 import PtGen.ApiNames
 namespace Pt
 
@@ -332,6 +333,50 @@ theorem where_sound (oc ox oy : BOpd) (vc vx vy : Option (Arr Val)) (r : Shape)
     eval (idxEnv i binds) (Lower.whereExpr oc ox oy r) = (Spec.whereV oc ox oy vc vx vy r).get i :=
   whereExpr_eval oc ox oy vc vx vy r binds i hr h1 h2 h3 hi
 
+/-! ## the array API: reductions (`sum, prod, amax, amin, all, any`) -/
+
+/-- `_make_reduction_lambda`: for ALL operand shapes (any rank), every set of
+    reduction axes (`axis=None`, an int, any tuple — `Lower.redMask`) and each of
+    the six reduction operations, whenever the API builds an index lambda at all
+    (`reduceExpr … = some e`: some axis is reduced, all axes are in range, and
+    `amax`/`amin` have no empty reduction axis), the `Reduce` expression — kept
+    axes indexed `_0, _1, …`, reduced axes `_r0, _r1, …` over `0 ≤ _r < axis_len`
+    — evaluates at any in-bounds output index to the iterated reduction of the
+    operand over the reduced axes (`Spec.reduceV`, compared with NumPy by the
+    harness). -/
+theorem reduce_sound (op : RedOp) (a : Arr Val) (axes : Option (List Nat)) (e : SExpr)
+    (binds : List (String × Arr Val)) (i : Idx)
+    (he : Lower.reduceExpr op a.shape axes = some e)
+    (hl : Raise.lookupEnv binds "in" = some a)
+    (hi : inB (Spec.reduceV op axes a).shape i = true) :
+    eval (idxEnv i binds) e = (Spec.reduceV op axes a).get i :=
+  reduceExpr_eval op a axes e binds i he hl hi
+
+/-- the API returns its argument unchanged (no index lambda) iff no axis is reduced;
+    the model then has no expression, and the specification is the identity -/
+theorem reduce_no_axes (op : RedOp) (shape : Shape) :
+    Lower.reduceExpr op shape (some []) = none := by
+  unfold Lower.reduceExpr
+  have : Lower.maskShape true (Lower.redMask shape.length (some [])) shape = [] := by
+    have h : ∀ (m : List Bool) (s : Shape), (∀ b ∈ m, b = false) → Lower.maskShape true m s = [] := by
+      intro m
+      induction m with
+      | nil => intro s _; cases s <;> rfl
+      | cons b m ih =>
+        intro s hb
+        cases s with
+        | nil => rfl
+        | cons n ns =>
+          have : b = false := hb b (by simp)
+          subst this
+          simp only [Lower.maskShape, Bool.false_eq_true, if_false]
+          exact ih ns fun b' hb' => hb b' (by simp [hb'])
+    apply h
+    intro b hb
+    simp [Lower.redMask] at hb
+    exact hb.2
+  simp [this]
+
 /-! ### every API function emits the operation of its own name
 
 The INTENDED table, written by hand — this is the specification:
@@ -551,5 +596,22 @@ example : (Lower.binop .sub (.arr [2, 3] "int64") (.pyScalar (.int 2)) "int64" t
 example : (Lower.where_ (.arr [2, 1] "bool") (.arr [2, 3] "int64") (.pyScalar (.int 0))).map
       (fun p => (p.1, (evalIL p.2 p.1 [("_in0", exB21), ("_in1", exArr)]).toList))
     = some ([2, 3], [.i 1, .i 2, .i 3, .i 0, .i 0, .i 0]) := by decide +kernel
+
+-- reductions: sum over axis 1, amax over all axes, all(axis=0) of a (2,1) bool array;
+-- nothing to reduce / an empty amax have no index lambda
+example : Raise.lookupEnv [("in", exArr)] "in" = some exArr := rfl
+example : (Lower.reduceExpr .sum [2, 3] (some [1])).map (fun e => (evalIL e [2] [("in", exArr)]).toList)
+      = some (Spec.reduceV .sum (some [1]) exArr).toList
+    ∧ (Spec.reduceV .sum (some [1]) exArr).toList = [.i 6, .i 15] := by decide +kernel
+example : (Lower.reduceExpr .max [2, 3] none).map (fun e => (evalIL e [] [("in", exArr)]).toList)
+      = some [.i 6]
+    ∧ (Spec.reduceV .max none exArr).toList = [.i 6]
+    ∧ (Spec.reduceV .prod (some [0]) exArr).toList = [.i 4, .i 10, .i 18] := by decide +kernel
+example : (Lower.reduceExpr .all [2, 1] (some [0])).map (fun e => (evalIL e [1] [("in", exB21)]).toList)
+      = some [.b false] := by decide +kernel
+example : Lower.reduceExpr .sum [2, 3] (some [1])
+    = some (.reduce .sum "_r0" (.int 0) (.int 3) (.sub "in" [.idx 0, .var "_r0"])) := by rfl
+example : Lower.reduceExpr .max [2, 0] (some [1]) = none ∧ Lower.reduceExpr .sum [2, 0] (some [1]) ≠ none
+    ∧ Lower.reduceExpr .sum [2, 3] (some [2]) = none := by decide +kernel
 
 end Pt
